@@ -5,7 +5,6 @@
 
 use std::ffi::OsString;
 use std::io::{Read, Write};
-use std::os::unix::process::CommandExt;
 use std::path::{Path, PathBuf};
 use std::process::{Command, Stdio};
 use std::sync::atomic::{AtomicU64, Ordering};
@@ -141,7 +140,12 @@ impl Cmd {
 
     pub fn run(&self) -> Output {
         let start = Instant::now();
-        let mut c = Command::new(&self.bin);
+        // A new session (no controlling terminal) through the setsid(1) wrapper rather than a
+        // pre_exec hook: without pre_exec std can use posix_spawn, which does not copy the page
+        // tables of this multi-threaded monitor for every child.
+        let mut c = Command::new("/usr/bin/setsid");
+        c.arg("-w");
+        c.arg(&self.bin);
         c.args(&self.args);
         c.env_clear();
         for (k, v) in &self.env {
@@ -186,12 +190,6 @@ impl Cmd {
         }
         let _ = closed_pipe_keep;
         c.stderr(Stdio::piped());
-        unsafe {
-            c.pre_exec(|| {
-                libc::setsid();
-                Ok(())
-            });
-        }
         let mut child = match c.spawn() {
             Ok(ch) => ch,
             Err(e) => {
